@@ -123,10 +123,10 @@ def run(model, rep, tier):
         good_edges = set()
         for t in tests:
             norm = normalise_compare(t.ast.test)
-            at = set(atoms(norm))
-            has_none = ("self._write_txn", "is", "None") in at
-            has_evt = ("event", "==", "self._write_event") in at or ("self._write_event", "==", "event") in at or \
-                      ("event", "is", "self._write_event") in at or ("self._write_event", "is", "event") in at
+            # both conditions must be DIRECT conjuncts (a disjunction around one of them weakens the admission test)
+            direct = {p_[1] for p_ in norm[1] if p_[0] == "atom"} if norm[0] == "and" else set()
+            has_none = ("self._write_txn", "is", "None") in direct
+            has_evt = bool({("event", "==", "self._write_event"), ("self._write_event", "==", "event"), ("event", "is", "self._write_event"), ("self._write_event", "is", "event")} & direct)
             if norm[0] == "and" and has_none and has_evt:
                 good_edges.add((t.id, "t"))
         okk = bool(good_edges) and cfg.edge_dominated(s.id, good_edges)
@@ -250,6 +250,8 @@ WITNESSES = [
      "new": "    def _end_write(self, txn):\n        self._end_write_unlocked(txn)"},
     {"id": "c12-take-cuts", "rule": "R-12.3", "file": "dns/versioned.py", "expect": "fires",
      "old": "if self._write_txn is None and event == self._write_event:", "new": "if self._write_txn is None:"},
+    {"id": "c12-admission-widened", "rule": "R-12.3", "file": "dns/versioned.py", "expect": "fires",
+     "old": "if self._write_txn is None and event == self._write_event:", "new": "if self._write_txn is None and (\n                    event == self._write_event or len(self._write_waiters) == 0\n                ):"},
     {"id": "c12-wait-under-lock", "rule": "R-12.2", "file": "dns/versioned.py", "expect": "fires",
      "old": "                self._write_waiters.append(event)\n", "new": "                self._write_waiters.append(event)\n                event.wait()\n"},
     {"id": "c12-lifo", "rule": "R-12.3", "file": "dns/versioned.py", "expect": "fires",
